@@ -216,7 +216,9 @@ def evaluate(n, unsigned_strings=False):
         lo = evaluate(n.kids[2], unsigned_strings)
         if hi.kind != "int" or lo.kind != "int" or hi.v < 0 or lo.v < 0:
             raise Err("type")
-        if hi.v + 1 < lo.v:
+        if hi.v < lo.v:
+            # `x[hi:lo]` names the bits hi down to lo: hi < lo is an inverted range, also when hi = lo - 1 (finding F50,
+            # repaired; an earlier version of this oracle had copied the code's off-by-one)
             raise Err("inverted")
         w = hi.v + 1 - lo.v
         return V("int", (x >> lo.v) % 2 ** w, w)
@@ -336,7 +338,7 @@ def gen(rng, depth, want="int", allow_err=0.04):
                 hi = lo + w - 1
             else:
                 lo = rng.randrange(2, 9)
-                hi = lo - rng.randrange(2, lo + 1)
+                hi = lo - rng.randrange(1, lo + 1)
             return Node("slice", gen(rng, depth - 1, "int"), lit_int(hi, str(hi), None), lit_int(lo, str(lo), None))
         if r < 0.75:
             s = rng.randrange(0, 40)
@@ -356,6 +358,18 @@ def gen(rng, depth, want="int", allow_err=0.04):
         a = gen(rng, depth - 1, "int")
         b = gen(rng, depth - 1, "int")
         return Node("bin", a, b, op=op)
+    if r < 0.47:
+        # results whose magnitude needs 62..66 bits (the edge of a machine word), 126..130 bits: the shift is exact
+        b = rng.randrange(1, 24)
+        v = rng.randrange(1 << (b - 1), 1 << b)
+        if rng.random() < 0.4:
+            v = -v
+        k = rng.choice([64, 64, 128]) - b + rng.choice([-1, 0, 0, 1, 2])
+        lhs = lit_int(v, str(v), None) if v >= 0 else Node("un", lit_int(-v, str(-v), None), op="-")
+        node = Node("bin", lhs, lit_int(k, str(k), None), op="<<")
+        if rng.random() < 0.4:
+            node = Node("bin", node, lit_int(k, str(k), None), op=">>")
+        return node
     if r < 0.55:
         sh = lit_int(*(lambda v: (v, str(v), None))(rng.choice([0, 1, 2, 3, 7, 8, 31, 32, 63, 64, 65, 100, 200])))
         if rng.random() < 0.15:
